@@ -39,6 +39,22 @@ def check(run):
         if not (abs(back - c) <= 4 * EPS * abs(c)):
             run.violation("constant-round-trip", "constant_from_ell_0_mode", {"c": [c.real, c.imag]}, c, back)
         m = spherical.Modes(np.array([wgt, 0, 0, 0], dtype=complex), spin_weight=0, ell_min=0, ell_max=1)
+        # the ell = 0 weight on its own (ell_max = 0): through Wigner(0), both strategies, and the Modes front ends
+        m00 = spherical.Modes(np.array([wgt], dtype=complex), spin_weight=0, ell_min=0, ell_max=0)
+        Rany = quaternionic.array(helpers.random_rotor(rng))
+        wz = spherical.Wigner(0)
+        for nm, fn in (("Wigner(0).evaluate[horner=True]", lambda: wz.evaluate(m00, Rany, horner=True)), ("Wigner(0).evaluate[horner=False]", lambda: wz.evaluate(m00, Rany, horner=False)),
+                       ("Modes.evaluate", lambda: m00.evaluate(Rany)), ("Wigner(3).evaluate", lambda: spherical.Wigner(3).evaluate(m00, Rany, horner=True)),
+                       ("Wigner(0).rotate[horner=True]", lambda: spherical.constant_from_ell_0_mode(wz.rotate(m00, Rany, horner=True).ndarray[0])),
+                       ("Wigner(0).rotate[horner=False]", lambda: spherical.constant_from_ell_0_mode(wz.rotate(m00, Rany, horner=False).ndarray[0])),
+                       ("Modes.rotate", lambda: spherical.constant_from_ell_0_mode(m00.rotate(Rany).ndarray[0]))):
+            try:
+                val = complex(fn())
+            except Exception as e:
+                run.violation("constant-evaluation", "constant_as_ell_0_mode", {"c": [c.real, c.imag], "route": nm}, c, repr(e))
+                continue
+            if not (abs(val - c) <= 16 * EPS * max(abs(c), 1e-300)):
+                run.violation("constant-evaluation", "constant_as_ell_0_mode", {"c": [c.real, c.imag], "route": nm, "R": list(Rany.ndarray)}, c, val)
         for k, (th, ph) in enumerate(dirs[:6]):
             for nm, w, h in (evals if k == 0 else [evals[rng.randrange(len(evals))]]):
                 val = complex(w.evaluate(m, quaternionic.array.from_spherical_coordinates(th, ph), horner=h))
